@@ -156,6 +156,7 @@ func (h *Hub) Run() {
 				h.connMu.Unlock()
 				log.Printf("[WS] Connection rejected (limit reached): %s", conn.ID)
 				h.metrics.IncrementRejectedConnections()
+				conn.detach(h.roomManager)
 				conn.conn.Close()
 				continue
 			}
